@@ -1,25 +1,28 @@
 #!/bin/bash
-# usage: confirm_seed.sh <ID>    (round-4 layout: worktree /tmp/wt-<ID> with the change applied and the demonstration test
-# untracked; deliverables in /tmp/seed-out/<ID>/).  Confirms: patch applies to the pristine tree, module builds, the
-# demonstration fails with the change and passes without it, the module's existing suite passes with the change.
-ID=$1; WT=/tmp/wt-$ID; OUT=/tmp/seed-out/$ID
+# usage: confirm_seed.sh <ID> <demo destination dir relative to the repo root> [<second demo file>=<dir> ...]
+# Deliverables in /tmp/seed-out/<ID>/ (patch.diff, *_test.go, notes.md); scratch worktree /tmp/wt-<ID> (reset here).
+# Confirms: patch applies to the pristine tree, module builds, the demonstration passes WITHOUT the change and fails
+# WITH it, and the existing suite of the touched module passes with the change.  Uses git apply / apply -R only
+# (git stash is shared between the worktrees of one repository).
+ID=$1; DEST=$2; shift 2
+WT=/tmp/wt-$ID; OUT=/tmp/seed-out/$ID
 export GOFLAGS=-mod=mod GOPROXY=off GOSUMDB=off GOTOOLCHAIN=local
 cd $WT || exit 2
-SRC=$(git diff --name-only | grep -v '_test.go$')
-DEMOS=$(git status --short | grep '^??' | awk '{print $2}' | grep '_test.go$')
-[ -n "$DEMOS" ] || { echo "no untracked demo test"; exit 2; }
+git checkout -q -- . ; git clean -fdq
+git apply --check $OUT/patch.diff && echo "patch applies to the pristine tree" || { echo "PATCH DOES NOT APPLY"; exit 2; }
+SRC=$(grep '^+++ b/' $OUT/patch.diff | sed 's#^+++ b/##')
 MOD=$(for m in x/ecocredit x/data x/intertx types api; do echo "$SRC" | grep -q "^$m/" && echo $m; done | head -1)
-[ -n "$MOD" ] || MOD=.
-PKGS=$(for d in $DEMOS; do echo ./$(dirname ${d#$MOD/}); done | sort -u)
-echo "id=$ID module=$MOD src=[$(echo $SRC)] demos=[$(echo $DEMOS)] pkgs=[$(echo $PKGS)]"
-git -C /repo apply --check $OUT/patch.diff && echo "patch applies to /repo HEAD" || echo "PATCH DOES NOT APPLY to /repo HEAD"
-cd $WT/$MOD
-go build ./... ; echo "build rc=$?"
-go test -vet=off -count=1 $PKGS > /tmp/confirm-$ID.with.log 2>&1; W=$?
-( cd $WT && git stash -q )
-go test -vet=off -count=1 $PKGS > /tmp/confirm-$ID.without.log 2>&1; WO=$?
-( cd $WT && git stash pop -q )
-mkdir -p /tmp/confirm-$ID.hold; for d in $DEMOS; do mv $WT/$d /tmp/confirm-$ID.hold/$(echo $d | tr / _); done
-go test -vet=off -count=1 ./... > /tmp/confirm-$ID.suite.log 2>&1; S=$?
-for d in $DEMOS; do mv /tmp/confirm-$ID.hold/$(echo $d | tr / _) $WT/$d; done; rmdir /tmp/confirm-$ID.hold
-echo "RESULT id=$ID demo_with_change_rc=$W (want !=0) demo_without_change_rc=$WO (want 0) suite_with_change_rc=$S (want 0)"
+DEMOS=""
+for f in $OUT/*_test.go; do
+  d=$DEST; for kv in "$@"; do [ "${kv%%=*}" = "$(basename $f)" ] && d=${kv#*=}; done
+  cp $f $WT/$d/; DEMOS="$DEMOS $d/$(basename $f)"
+done
+run_demos() { rc=0; for d in $DEMOS; do m=$(for mm in x/ecocredit x/data x/intertx types; do case $d in $mm/*) echo $mm;; esac; done | head -1); ( cd $WT/$m && go test -vet=off -count=1 ./$(dirname ${d#$m/}) ) >> $1 2>&1 || rc=1; done; return $rc; }
+echo "id=$ID module=$MOD src=[$(echo $SRC)] demos=[$DEMOS]"
+: > /tmp/confirm-$ID.without.log; run_demos /tmp/confirm-$ID.without.log; WO=$?
+git apply $OUT/patch.diff
+( cd $WT/$MOD && go build ./... ); echo "build rc=$?"
+: > /tmp/confirm-$ID.with.log; run_demos /tmp/confirm-$ID.with.log; W=$?
+for d in $DEMOS; do rm $WT/$d; done
+( cd $WT/$MOD && go test -vet=off -count=1 ./... ) > /tmp/confirm-$ID.suite.log 2>&1; S=$?
+echo "RESULT id=$ID demo_without_change_rc=$WO (want 0) demo_with_change_rc=$W (want !=0) suite_with_change_rc=$S (want 0)"
